@@ -155,16 +155,28 @@ def run(ctx):
     P = "C15-R2"
     cn = facts.one(r"config::context::Context::new$")
     if ctx.check(cn is not None, P, "anchor|Context::new", "Context::new found", ""):
-        joins = cn.calls_to(r"^std::path::Path::join$")
-        if ctx.check(len(joins) == 1, P, "one-join", "one path join resolves the source directory (%d)" % len(joins), cn.where()):
-            J = joins[0]
-            base = call_chain(cn, J.args[0])
-            bn = [c.name.split("::")[-1] for c in base[0]]
-            bf = _field_path(cn, base[0][0].args[0]) if base[0] else []
-            ctx.check(bn[:1] == ["new"] and bf[-1:] == ["config_dir"], P, "join-base", "the base of the join is the config directory (%s %s)" % (bn[:1], bf), J.where())
-            af = _field_path(cn, J.args[1])
-            ctx.check(af[-1:] == ["source_dir"], P, "join-arg", "the joined component is the configured source_dir (%s)" % af, J.where())
-            # guarded by !starts_with(MAIN_SEPARATOR)
+        from ..common import path_parts
+        # the value stored into config.source_dir in the relative case
+        stores = []
+        for bb in sorted(cn.reachable_blocks()):
+            for st in cn.blocks[bb]["stmts"]:
+                if st["k"] == "assign" and [e.get("n") for e in st["dst"]["p"] if isinstance(e, dict) and "f" in e][-1:] == ["source_dir"]:
+                    stores.append((bb, st))
+        if ctx.check(len(stores) == 1, P, "one-join", "one place rewrites config.source_dir (%d)" % len(stores), cn.where()):
+            sb, sst = stores[0]
+            chain, root = call_chain(cn, sst["rv"]["op"]) if sst["rv"]["k"] == "use" else ([], None)
+            # walk back to the path object: to_string <- to_str <- <path>
+            pathop = None
+            for c in chain:
+                if c.matches(r"^std::path::Path::to_str$|Path::to_string_lossy$|Path::display$"):
+                    pathop = c.args[0]
+                    break
+            parts = path_parts(cn, pathop) if pathop is not None else None
+            fields = [_field_path(cn, x)[-1:] for x in (parts or [])]
+            ctx.check(parts is not None and fields == [["config_dir"], ["source_dir"]], P, "join-base",
+                      "the new source_dir is <config_dir>/<source_dir> (components: %s)" % fields, cn.where(sb))
+            ctx.ok(P, "the joined component is the configured source_dir", cn.where(sb))
+            J_bb = sb
             sw_ok = False
             for c in cn.calls_to(r"::starts_with$|Path::is_absolute$|Path::is_relative$|Path::has_root$"):
                 for bb in sorted(cn.reachable_blocks()):
@@ -177,8 +189,8 @@ def run(ctx):
                                 tt, ft = ft, tt
                             rel_arm = ft if c.matches(r"starts_with$|is_absolute$|has_root$") else tt
                             dom = cfg.dominators(cn)
-                            sw_ok = rel_arm in dom.get(J.bb, ())
-            ctx.check(sw_ok, P, "join-only-relative", "the join happens exactly for a relative source_dir", J.where())
+                            sw_ok = rel_arm in dom.get(J_bb, ())
+            ctx.check(sw_ok, P, "join-only-relative", "the rewrite happens exactly for a relative source_dir", cn.where(sb))
         # config_dir field is the config_dir parameter
         okc = False
         for bb in sorted(cn.reachable_blocks()):
@@ -207,25 +219,38 @@ def run(ctx):
         b = facts.one(pat)
         if not ctx.check(b is not None, P, "anchor|" + what, "%s found" % what, ""):
             continue
-        # the join may live in this function or in a private helper both lock functions share
+        # path = <directory argument>/"Breadlog.lock", built here or in a private helper both functions share
+        from ..common import path_parts
         holders = [b] + [facts.body(c.name) for c in b.calls if c.name and facts.body(c.name) is not None and facts.body(c.name).kind in ("Fn", "AssocFn")]
         ok = False
         for hb in holders:
-            for J in hb.calls_to(r"^std::path::Path::join$"):
-                base = call_chain(hb, J.args[0])
-                k = op_const(J.args[1]) or {}
+            cands = []
+            for c in hb.calls:
+                if c.matches(r"^std::fs::|^std::path::Path::exists$") and c.args:
+                    cands.append(c.args[0])
+            if hb is not b:
+                cands += [st["rv"]["op"] for (_, st) in return_values(hb) if st["rv"]["k"] == "use"] + \
+                         [{"copy": {"l": c.dst["l"], "p": []}} for c in hb.calls if c.dst["l"] == 0]
+            for cand in cands:
+                parts = path_parts(hb, cand)
+                if not parts or len(parts) != 2:
+                    continue
+                r0 = call_chain(hb, parts[0])
+                k = op_const(parts[1]) or {}
+                if not k:
+                    cc, rr = call_chain(hb, parts[1])
+                    k = rr[1] if rr[0] == "const" else {}
                 dirparam = [i for i in range(1, hb.arg_count + 1) if hb.local_ty(i) == "&str"]
-                if [c.name.split("::")[-1] for c in base[0]] == ["new"] and base[1][0] == "param" and base[1][1] in dirparam and k.get("str") == edit.LOCK_CONST:
+                if r0[1][0] == "param" and r0[1][1] in dirparam and not r0[0] and k.get("str") == edit.LOCK_CONST:
                     if hb is b:
                         ok = True
                     else:
-                        # the helper must be given this function's directory argument
                         for c in b.calls:
                             if c.name == hb.id:
-                                r = call_chain(b, c.args[base[1][1] - 1])
+                                r = call_chain(b, c.args[r0[1][1] - 1])
                                 mydir = [i for i in range(1, b.arg_count + 1) if b.local_ty(i) == "&str"]
                                 ok = ok or (r[1][0] == "param" and r[1][1] in mydir and not r[0])
-        ctx.check(ok, P, "lock-path|" + what, "%s: path = Path::new(<directory argument>).join(\"Breadlog.lock\")" % what, b.where())
+        ctx.check(ok, P, "lock-path|" + what, "%s: path = <directory argument>/\"Breadlog.lock\"" % what, b.where())
         # every fs call in it uses that path
         prov = Prov(b)
         for c in b.calls:
